@@ -31,7 +31,17 @@ type rec = map[string]interface{}
 
 type val struct {
 	V string `json:"v"`
-	K string `json:"k"` // index key ("" = not indexed)
+	K string `json:"k,omitempty"` // index key (absent = not indexed)
+}
+
+// keyOf is the index key a value is stored with: every third workload value has none, so that stored
+// values differ in shape (a member present in some, absent in others).
+func keyOf(v string) string {
+	var n int
+	if _, err := fmt.Sscanf(v, "v%d", &n); err == nil && n%3 == 0 {
+		return ""
+	}
+	return "k" + v
 }
 
 type op struct {
@@ -89,7 +99,7 @@ func openStore(dir, prefix string) (*badger.DB, *badgerstore.Store, *badgerstore
 func doInit(st *badgerstore.Store) error {
 	return st.Init(func(add func(id string, v interface{})) error {
 		for _, s := range seeds {
-			add(s[0], val{V: s[1], K: "k" + s[1]})
+			add(s[0], val{V: s[1], K: keyOf(s[1])})
 		}
 		return nil
 	})
@@ -142,9 +152,9 @@ func ChildMain(dir string, seed int64, killSpec, prefix string) {
 			t := st.Write(o.ID)
 			switch o.Op {
 			case "create":
-				err = t.Create(val{V: o.V, K: "k" + o.V})
+				err = t.Create(val{V: o.V, K: keyOf(o.V)})
 			case "update":
-				err = t.Update(val{V: o.V, K: "k" + o.V})
+				err = t.Update(val{V: o.V, K: keyOf(o.V)})
 			default:
 				err = t.Delete()
 			}
@@ -385,7 +395,9 @@ func oneRun(rs runSpec) (rec, error) {
 	type ent struct{ k, id string }
 	var ents []ent
 	for _, o := range obs2 {
-		ents = append(ents, ent{"k" + o[1], o[0]})
+		if k := keyOf(o[1]); k != "" {
+			ents = append(ents, ent{k, o[0]})
+		}
 	}
 	sort.Slice(ents, func(i, j int) bool {
 		if ents[i].k != ents[j].k {
